@@ -6,6 +6,35 @@ BASELINE = ("cd /repo && cargo nextest run --workspace --no-fail-fast --tool-con
             "--profile pb --test-threads 8 --offline")
 
 CLAIMED = {
+    'C10': dict(
+        technique='Lean 4 proof over the model of reason_shortest_path_between_causes + proved Floyd–Warshall oracle '
+                  '(fw_correct, tabulated form proved equal) validating the path astar returned + differential correspondence run',
+        text='Theorems evaluated_eq_prefix / verdict_true_iff / verdict_first_nontrue / nothing_else_evaluated / errors_iff / '
+             'spErr_iff / accepted_path_minimal / model_sp_spec: along the path returned by get_shortest_path exactly the prefix '
+             'up to and including the first non-true causaloid is evaluated, in order, the result is the conjunction, nothing '
+             'off the path is evaluated; an error without evaluation iff empty graph, absent endpoint, start = stop or stop '
+             'unreachable; a path accepted by the driver is a real path of minimum weight among all walks (Floyd–Warshall, '
+             'proved). Ties are the implementation\'s choice and are validated per case, not predicted.',
+        note='Trusted: Lean kernel, Model/CausalGraph.lean (correspondence-tied), harness/driver pair. petgraph astar is not '
+             'translated: its answer is checked per query (real path, weight = proved distance), so minimality is established for '
+             'every executed query, not for all inputs of astar.',
+        ref='DESIGN.md §7 C10'),
+    'C01': dict(
+        technique='Lean 4 proof (stack-machine invariant by induction on fuel and stack; termination by a rank on acyclic '
+                  'graphs; add-only invariant by induction over the build history) over a hand-written line-by-line model of '
+                  'graph_reasoning.rs + differential correspondence run against the real CausaloidGraph',
+        text='Theorems reason_true_iff / reason_false / reason_err_never_true / reason_err_or_false / reason_terminates / '
+             'addOnly_stop_not_live / reasonAll_eq (+ evaluation log and activation-flag theorems, model_allowed): for every '
+             'acyclic graph built by adds only, every start, data vector, data index and assignment of causal functions the '
+             'modelled reason_from_to_cause returns Ok(true) iff every reachable causaloid is true on its routed observation, '
+             'Ok(false) when none errs and one is false, Err or Ok(false) (first non-true in DFS order) when one errs; it '
+             'terminates; the stop index is never live. The model is compared with the real code on every op (result, '
+             'activation flags of all nodes, order of causal-function calls).',
+        note='Trusted: Lean kernel, the hand-written model Model/CausalGraph.lean (tied to the code only by the correspondence '
+             'run: random DAGs n<=12/40, exhaustive DAGs on <=3/4 nodes x all verdict vectors, malformed stream), petgraph '
+             'index allocation and neighbour order (compared, not proved), harness/driver pair. Nested (non-singleton) nodes '
+             'are C02.',
+        ref='DESIGN.md §7 C01'),
     'C15': dict(
         technique='Lean 4 proof of a shortest-path oracle (Floyd-Warshall by structural recursion, path checker) + translation '
                   'validation: every answer of the real shortest_path (petgraph astar) on generated graphs is judged by the proved oracle',
